@@ -1,5 +1,6 @@
 from vx.lift import Lift, Sub, Call, Members, Guard, DropStmt
 from vx.run import Unit
+from vx import census
 
 CS = "libs/pika/synchronization/src/detail/counting_semaphore.cpp"
 HPP = "libs/pika/synchronization/include/pika/synchronization/counting_semaphore.hpp"
@@ -125,3 +126,13 @@ META = {
     ],
     "not_decided": ["real time", "liveness of the woken task (C02)", "sync_wait's use of the semaphore"],
 }
+
+STATIC = [
+    census.enum("thread_restart_state", "libs/pika/coroutines/include/pika/coroutines/thread_enums.hpp", "thread_restart_state",
+                {"unknown": 0, "signaled": 1, "timeout": 2, "terminate": 3, "abort": 4}),
+    # A-CLOSED: value_ of detail::counting_semaphore is written only in the lifted functions (+ the constructor)
+    census.sites("counting_semaphore.value_ writes", ["libs/pika/synchronization/src/detail/counting_semaphore.cpp"],
+                 r"\bvalue_\s*(?:[-+]?=(?!=)|\+\+|--)|(?:\+\+|--)\s*value_", 4),
+    census.sites("sliding_semaphore.lower_limit_ writes", ["libs/pika/synchronization/src/detail/sliding_semaphore.cpp"],
+                 r"\blower_limit_\s*=(?!=)", 2),
+]
